@@ -1,6 +1,6 @@
 #!/usr/bin/env python3
 """Run the repository's baseline suite (hooks off) and compare with /root/.vp/BASELINE.json stable_pass.
-usage: check_baseline.py [--xml existing.xml]"""
+usage: check_baseline.py [--xml existing.xml | --repo /path/to/worktree]"""
 import json, subprocess, sys, os, tempfile, xml.etree.ElementTree as ET
 base = json.load(open('/root/.vp/BASELINE.json'))
 if len(sys.argv) > 2 and sys.argv[1] == '--xml':
@@ -8,6 +8,8 @@ if len(sys.argv) > 2 and sys.argv[1] == '--xml':
 else:
     xml = tempfile.mktemp(suffix='.xml', dir='/tmp')
     cmd = base['cmd'].replace('<file>', xml)
+    if len(sys.argv) > 2 and sys.argv[1] == '--repo':      # a scratch copy / worktree instead of /repo
+        cmd = cmd.replace('cd /repo &&', f'cd {sys.argv[2]} && PYTHONPATH={sys.argv[2]}')
     subprocess.run(cmd, shell=True, stdout=subprocess.DEVNULL, stderr=subprocess.DEVNULL)
 passed = set(); failed = set()
 for tc in ET.parse(xml).getroot().iter('testcase'):
